@@ -9,8 +9,8 @@ import (
 	"io"
 	"os"
 	"os/exec"
-	"runtime/debug"
 	"runtime"
+	"runtime/debug"
 	"sync"
 	"time"
 )
@@ -96,6 +96,9 @@ type Pool struct {
 	Env      []string
 	Timeout  time.Duration // per job
 	Restarts int
+	// Deadline: jobs not yet started when it passes are skipped (counted in Skipped).
+	Deadline time.Time
+	Skipped  int
 	mu       sync.Mutex
 	idle     []*worker
 }
@@ -132,7 +135,7 @@ func NewPool(n int, args ...string) *Pool {
 	if n <= 0 {
 		n = runtime.NumCPU()
 	}
-	return &Pool{N: n, Args: args, Timeout: 90 * time.Second}
+	return &Pool{N: n, Args: args, Timeout: 300 * time.Second}
 }
 
 func (p *Pool) spawn() (*worker, error) {
@@ -186,6 +189,12 @@ func (p *Pool) Run(jobs [][]byte, handle func(Result)) error {
 				}
 			}()
 			for idx := range ch {
+				if !p.Deadline.IsZero() && time.Now().After(p.Deadline) {
+					p.mu.Lock()
+					p.Skipped++
+					p.mu.Unlock()
+					continue
+				}
 				if w == nil {
 					var err error
 					w, err = p.spawn()
